@@ -1,0 +1,38 @@
+//go:build verif
+
+package l1infotreesync
+
+import (
+	"context"
+
+	"github.com/agglayer/aggkit/sync"
+)
+
+// This file only exists under the `verif` build tag. It exposes the real L1 info tree processor
+// behind the real L1InfoTreeSync facade, without a downloader/driver, for the external
+// verification harness.
+
+// NewVerif builds an L1InfoTreeSync around the real processor (newProcessor) on dbPath.
+func NewVerif(dbPath string) (*L1InfoTreeSync, error) {
+	p, err := newProcessor(dbPath)
+	if err != nil {
+		return nil, err
+	}
+	return &L1InfoTreeSync{processor: p}, nil
+}
+
+// VerifProcessBlock calls the real processor.ProcessBlock.
+func (s *L1InfoTreeSync) VerifProcessBlock(ctx context.Context, b sync.Block) error {
+	return s.processor.ProcessBlock(ctx, b)
+}
+
+// VerifReorg calls the real processor.Reorg.
+func (s *L1InfoTreeSync) VerifReorg(ctx context.Context, firstReorgedBlock uint64) error {
+	return s.processor.Reorg(ctx, firstReorgedBlock)
+}
+
+// VerifHalted reports the processor's halted flag.
+func (s *L1InfoTreeSync) VerifHalted() bool { return s.processor.isHalted() }
+
+// VerifClose closes the processor's database handle.
+func (s *L1InfoTreeSync) VerifClose() error { return s.processor.db.Close() }
